@@ -103,7 +103,12 @@ def one(ns, conds, acts, mt, via_update=False):
     """-> None | (stage, clause, text)"""
     fs = F.new_set(ns)
     try:
-        if via_update:
+        if via_update == "disabled-rename":
+            fs.addfilter("other", [("X", ":is", "y")], [("keep",)])
+            fs.addfilter("g", [("X", ":is", "y")], [("keep",)])
+            fs.disablefilter("g")
+            fs.updatefilter("g", "f", list(conds), list(acts), mt)
+        elif via_update:
             fs.addfilter("f", [("X", ":is", "y")], [("keep",)])
             fs.updatefilter("f", "f", list(conds), list(acts), mt)
         else:
@@ -156,7 +161,7 @@ def form_task(t):
         vals = ["x"]
     for V in vals:
         for mt in ("anyof", "allof"):
-            for via_update in (False, True) if V in ("a", "a, b") else (False,):
+            for via_update in (False, True, "disabled-rename") if V in ("a", "a, b") else (False,):
                 if is_action:
                     conds, acts = [("Subject", ":is", "x")], mk(V)
                 else:
